@@ -164,6 +164,9 @@ _compression_write(xmpp_conn_t *conn, const void *buff, size_t len, int flush)
 static int
 compression_write(struct conn_interface *intf, const void *buff, size_t len)
 {
+    /* deflate() reports Z_BUF_ERROR when there is nothing to do */
+    if (len == 0)
+        return 0;
     return _compression_write(intf->conn, buff, len, Z_NO_FLUSH);
 }
 
